@@ -29,7 +29,7 @@ def plan(tier, seed):
         for comp in (True, False):
             for part in ("flags", "range", "infinity"):
                 shards.append(dict(no=no, g=g, comp=comp, part=part, idx=0)); no += 1
-            for i in range(2 if q else 40):
+            for i in range(6 if q else 40):
                 shards.append(dict(no=no, g=g, comp=comp, part="random", idx=i)); no += 1
     return shards
 
